@@ -49,6 +49,16 @@ func init() {
 	for _, p := range []string{"c01", "c02", "c03", "c04", "c05"} {
 		p := p
 		gen := func(r *rand.Rand, n int, tier string) []string { return genE2E(r, n, tier, p) }
+		if p == "c02" {
+			// a tenth of the cases (generated after the others): words delimited by a tab / line feed / carriage return
+			gen = func(r *rand.Rand, n int, tier string) []string {
+				out := genE2E(r, n-n/10, tier, p)
+				for c := 0; c < n/10; c++ {
+					out = append(out, genE2EWordSep(r, p))
+				}
+				return out
+			}
+		}
 		rule := "datasets of 1..40 events over typed columns (int, dyadic decimal, mixed, text, numeric text, sparse, bool, late) × random batch/flush/rotate histories × queries of profile " + p + "; each case runs in its own engine process; non-trivial = ≥3 events and ≥1 query"
 		if p == "c05" {
 			rule += "; head / tail / dedup / top / rare behind the search over several blocks and segments (ties, events lacking the field, a filter in front)"
@@ -57,7 +67,7 @@ func init() {
 			rule += "; arrays (scalars of mixed kinds, objects and arrays inside) sent as JSON arrays, values of 255 … 60000 bytes, events with 300–800 columns"
 		}
 		if p == "c02" || p == "c03" {
-			rule += "; literal and column of different kinds by construction: quoted numbers against numbers, numeric text and text, text against numbers and booleans, wildcards against numbers, numeric text at the edges of the number grammar (+5, 1E2, 5., .5, 1e, -, e5, 0x10, nan, 1_000), a column mixing numbers, numeric text and text per block, free-text terms that are numbers, also under NOT alone and inside AND / OR; case-sensitive words and phrases (CASE(…)) and phrases over values in which the word first occurs inside a longer token and later as a whole word; multi-word values with capitals, never stored in lower case, searched by full value and phrase in another case"
+			rule += "; a tenth of the cases: words delimited by a tab / line feed / carriage return instead of a blank (fatal\\ttimeout, a\\ntimeout, x\\r\\ntimeout) next to blank-delimited occurrences, every event in a block of its own (c03: and all in one block as second layout), searched by term / CASE() / NOT / AND / OR / phrase / wildcard / column comparison — only the blank separates words, for the record matcher and the block bloom alike (tag free-text/word-delimited-by-tab-or-line-break); literal and column of different kinds by construction: quoted numbers against numbers, numeric text and text, text against numbers and booleans, wildcards against numbers, numeric text at the edges of the number grammar (+5, 1E2, 5., .5, 1e, -, e5, 0x10, nan, 1_000), a column mixing numbers, numeric text and text per block, free-text terms that are numbers, also under NOT alone and inside AND / OR; case-sensitive words and phrases (CASE(…)) and phrases over values in which the word first occurs inside a longer token and later as a whole word; multi-word values with capitals, never stored in lower case, searched by full value and phrase in another case"
 			if p == "c02" {
 				rule += "; every single numeric comparison once in the search clause and once as a where stage; wildcards in front / in the middle / at both ends of a value; single comparisons also through the SQL front end; `| regex` with anchored, prefix, suffix and infix patterns; `| where in(f, …)`; the time range given as earliest= / latest= in the query text"
 			}
@@ -128,7 +138,12 @@ var e2eNumEdge = []string{"+5", "1E2", "5.", ".5", "007", "-0", "+.5e1", "1e1", 
 
 var e2eWordy = []string{"xtimeout timeout", "retry-timeout reached timeout", "timeout", "a timeout b", "timeoutx timeout timeout", "Timeout timeout",
 	"TIMEOUT  timeout", "timeout-x", "xtimeout", "the Timeout", "timeout timeout", "no match here", "timeoutxtimeout timeout", "reached timeout now",
-	"xtimeout ytimeout", "retry timeoutx", "Reached Timeout"}
+	"xtimeout ytimeout", "retry timeoutx", "Reached Timeout",
+	// the word delimited by a TAB, a line feed or a carriage return instead of a blank: only the blank separates words — for the
+	// record-level matcher (utils.IsSubWordPresent) and for the block bloom (split at blanks) alike — so these values hold no
+	// word `timeout` / `reached` / `retry`, whichever block they share with the blank-delimited occurrences above
+	"fatal\ttimeout", "timeout\tfatal", "a\ntimeout", "x\r\ntimeout", "pre\ttimeout\tpost", "reached\ntimeout", "retry\treached\tnow",
+	"timeout\nsecond line", "Timeout\r\n"}
 
 // spellings of one message each; never all lower case
 var e2eMsgs = [][]string{
@@ -909,11 +924,14 @@ func genE2EV2(r *rand.Rand, n int, tier, profile string) []string {
 	var out []string
 	// a sixth of the cases of c03 / c04 (generated after the others, from the same PRNG): statistics answered from the
 	// pre-aggregated .sst file of one segment and recomputed from the records of another one IN ONE QUERY (genE2ESstRaw)
-	nSstRaw := 0
+	nSstRaw, nWordSep := 0, 0
 	if profile == "c03" || profile == "c04" {
 		nSstRaw = n / 6
 	}
-	for c := 0; c < n-nSstRaw; c++ {
+	if profile == "c03" {
+		nWordSep = n / 10 // words delimited by a tab / line feed / carriage return, one block per event vs one block for all
+	}
+	for c := 0; c < n-nSstRaw-nWordSep; c++ {
 		g := &e2eGen{r: r, profile: profile}
 		nev := 1 + r.Intn(40)
 		if r.Intn(5) == 0 {
@@ -1204,7 +1222,80 @@ func genE2EV2(r *rand.Rand, n int, tier, profile string) []string {
 	for c := 0; c < nSstRaw; c++ {
 		out = append(out, genE2ESstRaw(r, profile))
 	}
+	for c := 0; c < nWordSep; c++ {
+		out = append(out, genE2EWordSep(r, profile))
+	}
 	return out
+}
+
+// genE2EWordSep: free-text values in which a word is delimited by a TAB, a LINE FEED or a CARRIAGE RETURN instead of a blank
+// ("fatal\ttimeout", "a\ntimeout", "x\r\ntimeout"), next to values that hold the same word between blanks.  Only the blank
+// separates words: the record-level matcher (utils.IsSubWordPresent) and the block bloom (sub-words split at blanks) must agree
+// on that, else the answer of `timeout` depends on whether such an event shares its block with a blank-delimited
+// occurrence.  By construction: every event in a block of its own (c03: the same events in ONE block as second layout;
+// c02: one block for all in half of the cases), searched by the word as a term (any case / CASE()), under NOT, in AND / OR,
+// by phrase, by wildcard and by a comparison on the column.  Tag free-text/word-delimited-by-tab-or-line-break.
+func genE2EWordSep(r *rand.Rand, profile string) string {
+	word := []string{"timeout", "reached", "error"}[r.Intn(3)]
+	seps := []string{"\t", "\n", "\r\n", "\r"}
+	ctl := func() string {
+		sp := seps[r.Intn(len(seps))]
+		switch r.Intn(5) {
+		case 0:
+			return "fatal" + sp + word
+		case 1:
+			return word + sp + "fatal"
+		case 2:
+			return "pre" + sp + word + seps[r.Intn(len(seps))] + "post"
+		case 3:
+			return "disk fatal" + sp + word + " on sda" // a blank on the far side only
+		default:
+			return strings.ToUpper(word[:1]) + word[1:] + sp + "x " + "y" + sp + word
+		}
+	}
+	blank := func() string {
+		return []string{word, "a " + word + " b", "x" + word + " " + word, strings.ToUpper(word) + " again", "no match here", word + "x", "the " + word}[r.Intn(7)]
+	}
+	n := 3 + r.Intn(5)
+	var evs []string
+	for v := 1; v <= n; v++ {
+		w := blank()
+		if v == 1 || r.Intn(2) == 0 {
+			w = ctl()
+		}
+		fs := []kv{{"i", fmt.Sprintf("i%d", r.Intn(9))}, {"s", "s" + hexs(vocab[r.Intn(len(vocab))])}, {"w", "s" + hexs(w)}}
+		evs = append(evs, e2eEvent{vid: v, ts: e2eBase + uint64(r.Intn(5000)), fields: fs}.token())
+	}
+	toks := []string{"e2e"}
+	if card := []int{0, 5, 1000}[r.Intn(3)]; card > 0 {
+		toks = append(toks, fmt.Sprintf("card=%d", card))
+	}
+	toks = append(toks, "H")
+	oneBlock := profile == "c02" && r.Intn(2) == 0
+	for i, t := range evs {
+		toks = append(toks, t)
+		if !oneBlock || i == len(evs)-1 {
+			toks = append(toks, "send", "fl")
+		}
+	}
+	if r.Intn(2) == 0 {
+		toks = append(toks, "ro")
+	}
+	if profile == "c03" {
+		toks = append(toks, "H2")
+		toks = append(toks, evs...)
+		toks = append(toks, "send", []string{"fl", "ro"}[r.Intn(2)])
+	}
+	toks = append(toks, "Q")
+	up := strings.ToUpper(word[:1]) + word[1:]
+	fl := []string{"t:" + hexs(word), "tc:" + hexs(word), "t:" + hexs(up), "t:" + hexs(word) + ",not", "t:" + hexs(word) + ",t:" + hexs("fatal") + ",and",
+		"t:" + hexs(word) + ",c:i:lt:i4,or", "p:" + hexs("fatal "+word), "p:" + hexs("a "+word), "t:" + hexs(word[:3]+"*"), "t:" + hexs("fatal"), "t:" + hexs("post"),
+		"c:w:eq:s" + hexs(word), "c:w:eq:w" + hexs("*"+word), "c:w:ne:s" + hexs(word)}
+	toks = append(toks, fmt.Sprintf("q/0/1000/%d/%d/%s", e2eBase-1000, e2eBase+6000, fl[0]))
+	for _, k := range r.Perm(len(fl) - 1)[:5] {
+		toks = append(toks, fmt.Sprintf("q/0/1000/%d/%d/%s", e2eBase-1000, e2eBase+6000, fl[k+1]))
+	}
+	return strings.Join(toks, " ")
 }
 
 // genE2ESstRaw: `* | stats <aggregates>` (no by clause) is answered per segment: a rotated segment whose time range the
@@ -2491,6 +2582,7 @@ func execE2ELayout(f []string) Result {
 	var qs []e2eQuery
 	nAnswers := 0
 	seenFilter := map[string]string{} // filter → window of its first run
+	var ctlWords map[string]bool      // lower-cased words of the history's string values that a tab / LF / CR delimits on at least one side
 	for _, t := range f[i+1:] {
 		if t == "w" {
 			in.WriteString("pqwait\n")
@@ -2507,6 +2599,16 @@ func execE2ELayout(f []string) Result {
 		}
 		qs = append(qs, q)
 		e2eQueryTags(t, q, evTs, seenFilter, tagSet)
+		if ctlWords == nil {
+			ctlWords = e2eCtlWords(f)
+		}
+		if qp := strings.Split(t, "/"); len(qp) >= 6 {
+			for _, it := range strings.Split(qp[5], ",") {
+				if ip := strings.Split(it, ":"); len(ip) == 2 && (ip[0] == "t" || ip[0] == "tc") && ctlWords[strings.ToLower(unhexs(ip[1]))] {
+					tagSet["free-text/word-delimited-by-tab-or-line-break"] = true
+				}
+			}
+		}
 		if q.kind == "pages" {
 			// page through the whole result: from = 0, k, 2k, … (one page more than needed to see the end)
 			np := nev/q.pageSize + 2
@@ -2999,6 +3101,7 @@ func e2eQueryTags(tok string, q e2eQuery, evTs []uint64, seenFilter map[string]s
 		if len(ip) == 2 && (ip[0] == "tc" || ip[0] == "pc") {
 			tags["filter:case-sensitive-term-or-phrase"] = true
 		}
+
 		if len(ip) == 2 && (ip[0] == "p" || ip[0] == "pc") {
 			tags["filter:phrase"] = true
 		}
@@ -3036,6 +3139,38 @@ func e2eQueryTags(tok string, q e2eQuery, evTs []uint64, seenFilter map[string]s
 			tags["group-by-ints-beyond-2^53"] = true
 		}
 	}
+}
+
+// e2eCtlWords: the pieces (split at blank, tab, LF, CR) of the history's string values that touch a tab / LF / CR
+func e2eCtlWords(f []string) map[string]bool {
+	out := map[string]bool{}
+	for _, t := range f {
+		if !strings.HasPrefix(t, "ev/") {
+			continue
+		}
+		p := strings.SplitN(t, "/", 4)
+		if len(p) != 4 || p[3] == "-" {
+			continue
+		}
+		for _, x := range strings.Split(p[3], ",") {
+			y := strings.SplitN(x, "~", 2)
+			if len(y) != 2 || len(y[1]) < 2 || y[1][0] != 's' {
+				continue
+			}
+			v := unhexs(y[1][1:])
+			if !strings.ContainsAny(v, "\t\n\r") {
+				continue
+			}
+			for _, blankTok := range strings.Split(v, " ") {
+				if strings.ContainsAny(blankTok, "\t\n\r") {
+					for _, w := range strings.FieldsFunc(blankTok, func(c rune) bool { return c == '\t' || c == '\n' || c == '\r' }) {
+						out[strings.ToLower(w)] = true
+					}
+				}
+			}
+		}
+	}
+	return out
 }
 
 // input-distribution tags of the history (first layout): block/segment shapes the generator aims at
